@@ -55,6 +55,27 @@ def put_replaces_all():
     return _ALLV
 
 
+_LAYOUT = {}
+
+
+def page_size(func, x26, x28):
+    """the size rule of cache_page_size () as documented in cache-priv.h (bytes the page function needs), over the struct
+    sizes the translator's compiled probe reports - written from the struct, not from cache.c's switch"""
+    if not _LAYOUT:
+        t = open(os.path.join(verif.VERIF, "lean", "ZvbiModel", "Generated", "CacheLayout.lean")).read()
+        for m in re.finditer(r"def (\w+) : Nat := (\d+)", t):
+            _LAYOUT[m.group(1)] = int(m.group(2))
+    L = _LAYOUT
+    if func in (-1, 0):      # PAGE_FUNCTION_UNKNOWN, LOP
+        if x28 & 0x13: return L["hdrSize"] + L["extLopSize"]
+        if x26: return L["hdrSize"] + L["enhLopSize"]
+        return L["hdrSize"] + L["lopSize"]
+    if func in (2, 3): return L["hdrSize"] + L["popSize"]
+    if func in (4, 5): return L["hdrSize"] + L["drcsSize"]
+    if func == 9: return L["hdrSize"] + L["aitSize"]
+    return L["fullSize"]
+
+
 class Entry:
     __slots__ = ("net", "pgno", "subno", "func", "x26", "x28", "tag", "live", "refs")
 
@@ -124,7 +145,7 @@ class Abs:
             return None if res.startswith("rej") else "malformed op accepted: '%s' -> '%s'" % (op, res)
         return r or self.counters(k, out)
 
-    QUIET = ("get", "ref", "iscached", "hisubno", "foreach", "ptype", "statreset", "netref")
+    QUIET = ("get", "ref", "iscached", "hisubno", "foreach", "ptype", "statreset", "netref", "copy")
 
     def counters(self, k, out):
         """nothing leaves the cache without a reason (no memory limit in force, no purge so far): look-ups,
@@ -372,6 +393,15 @@ class Abs:
         # held page intact until released, also when replaced (zombie) or its network was dropped
         return self.expect(res, "ok %d %d %d" % (e.pgno, e.subno, e.tag))
 
+    def op_copy(self, w, res):
+        """cache_page_copy of a held page: cache_page_size (src) bytes, content of the held version, cache untouched"""
+        if len(w) != 2: raise ValueError
+        e = self.page_of(self.num(w[1], 1000000))
+        if e is None:
+            return self.expect(res, "rej handle")
+        return self.expect(res, "ok %d %d %d %d %d %d same %d" % (page_size(e.func, e.x26, e.x28), e.pgno, e.subno, e.func,
+                                                                  e.x26, e.x28, e.tag))
+
     def op_foreach(self, w, res):
         if len(w) != 6: raise ValueError
         n = self.net_of(self.num(w[1], 1000000)); pgno = self.num(w[2], 0xFFFF); self.num(w[3], 0xFFFF)
@@ -520,7 +550,9 @@ def case_decoder(rng, n):
     for _ in range(n):
         k = rng.random()
         if k < 0.45:
-            h = g.put(); g.emit("unref %d" % h)
+            h = g.put()
+            if rng.random() < 0.15: g.emit("copy %d" % h)    # the way vbi_fetch_vt_page takes a private copy
+            g.emit("unref %d" % h)
         elif k < 0.7:
             h = g.get()
             if g.abs.page_of(h) is not None: g.emit("unref %d" % h)
@@ -555,9 +587,12 @@ def case_client(rng, n, pressure=False):
         if k < 0.30:
             h = g.put()
             if rng.random() < 0.6: g.emit("unref %d" % h)
-        elif k < 0.48:
+        elif k < 0.46:
             h = g.get()
             if g.abs.page_of(h) is not None and rng.random() < 0.5: g.emit("unref %d" % h)
+        elif k < 0.48:
+            h = g.page()
+            g.emit("copy %d" % (h if h is not None and rng.random() < 0.9 else rng.randrange(0, len(g.abs.ph) + 2)))
         elif k < 0.62:
             g.unref()
         elif k < 0.66:
@@ -660,7 +695,7 @@ def case_enum(rng, seq, hold):
 
 def case_malformed(rng, n):
     words = ["put", "get", "ref", "unref", "addnet", "netref", "netunref", "chsw", "purge", "delete", "dump", "sizes",
-             "foreach", "iscached", "hisubno", "ptype", "statreset", "setlimit", "frob", "PUT", "pu", "0", "-1"]
+             "foreach", "iscached", "hisubno", "ptype", "statreset", "setlimit", "copy", "frob", "PUT", "pu", "0", "-1"]
     vals = ["0", "1", "2", "-1", "0x101", "0x100", "0x8ff", "0x900", "65536", "4294967296", "0xffffffff", "abc", "0x",
             "fwd", "rev", "1e3", "99999999999999999999", "7", "0x3f7f", "-0"]
     ops = ["addnet", "put 0 0x101 1 0 0 0 1"]
@@ -673,7 +708,7 @@ def case_malformed(rng, n):
         elif k < 0.85:
             ops.append("get 0 %s %s %s" % tuple(rng.choice(vals) for _ in range(3)))
         else:
-            ops.append("%s %d" % (rng.choice(["unref", "ref", "netunref", "netref", "chsw"]), rng.randrange(0, 6)))
+            ops.append("%s %d" % (rng.choice(["unref", "ref", "netunref", "netref", "chsw", "copy"]), rng.randrange(0, 6)))
     ops.append("dump")
     return ops
 
@@ -681,7 +716,8 @@ def case_malformed(rng, n):
 class C10(verif.Spec):
     prop = "C10"
     comp = "cache"
-    lean_modules = ["ZvbiModel.Props.C10", "ZvbiModel.Props.C10Ttx", "ZvbiModel.Props.C10Evict"]
+    lean_modules = ["ZvbiModel.Props.C10", "ZvbiModel.Props.C10Ttx", "ZvbiModel.Props.C10Evict", "ZvbiModel.Props.C10Hi",
+                    "ZvbiModel.Props.C10Stat"]
     harness = "cache_harness"
     harness_link_lib = True
     harness_extra = ["-DDLIST_CONSISTENCY=1"]
@@ -690,12 +726,15 @@ class C10(verif.Spec):
                     "the translator reads which one the source has): bookkeeping invariant incl. memory_used <= limit (all operations, "
                     "all histories, any memory limit, eviction paths), held_page_intact, eviction respects references, recycle only of "
                     "unreferenced networks, networks kept on page release / until the network limit is exceeded, look-up refinement, "
-                    "channel switch, teardown, hi_subno_agrees under the exact no-wrap hypothesis (Tame); store refinement "
+                    "channel switch, teardown, hi_subno_agrees under the exact no-wrap hypothesis (Tame) and, repaired shape, under a bound "
+                    "on the page references clients hold (hi_subno_agrees_refbound); the unconditional statement is refuted "
+                    "(hi_subno_agrees_full_counterexample: 65538-operation witness proved by closed-form induction, replayed on the "
+                    "real code); max_subpages high-water mark, n_subpages <= max_subpages, size rule of cache_page_size for every "
+                    "page function (Props/C10Stat.lean); store refinement "
                     "(refines_map_put, sim_put) is proved for the shape as found; counters-exact holds modulo 65536 for uint16_t "
                     "n_subpages and the page count per page number is unbounded on the shape as found (F17, proved witnesses); for the "
                     "repaired shape unique_key_repaired (the cache is a map) and version_bound_repaired (<= 256 cached versions per "
-                    "page number) are proved, the list form of the store refinement (aputR, MRU order) is stated (open) and validated "
-                    "by the abstract-map oracle; both shapes of the start look-up of _vbi_cache_foreach_page "
+                    "page number) and the list form of the store refinement (aputR, MRU order) are proved; both shapes of the start look-up of _vbi_cache_foreach_page "
                     "(fixes/C17-turn-3f7f.diff) are modelled and proved; walk order/termination are C17's")
     assumptions = ["clients pass only pointers they hold a reference on (the harness / driver enforce it: `rej handle`)",
                    "0x100 <= pgno <= 0x8FF for put / hi_subno / foreach (asserted by cache_network_page_stat; callers guarantee it)",
@@ -703,7 +742,9 @@ class C10(verif.Spec):
                    "malloc succeeds (the out-of-memory path of put is not modelled)",
                    "store refinement (refines_map_put) assumes memory is not short - true in libzvbi 0.2 while the cache holds "
                    "<= 0x800*80 pages (limit_unreachable_0_2); F17 shows the page count itself is not bounded"]
-    open_statements = ["hi_subno_agrees_full"]   # refines_map_put_repaired_full: proved (Props/C10Evict.lean refines_map_put_repaired)
+    open_statements = []   # hi_subno_agrees_full: settled in round 5 - REFUTED (Props/C10Hi.lean hi_subno_agrees_full_counterexample,
+                           # both source shapes, replayed on the real code); what holds instead: hi_subno_agrees_refbound.
+                           # refines_map_put_repaired_full: proved (Props/C10Evict.lean refines_map_put_repaired)
     trusted_base = ["lean/ZvbiModel/Cache/Model.lean: hand-written reading of src/cache.c (representation argued in NOTES/C10.md); "
                     "tied to the code by the correspondence run: every answer carries a digest of the complete cache state",
                     "translate/gen_cache.py (struct sizes, HASH_SIZE, death_row extent, limits; cross-checked by the `sizes` op)",
@@ -759,6 +800,14 @@ class C10(verif.Spec):
             add("pressure", c)
         for _ in range(60 if quick else 300):
             add("malformed", case_malformed(rng, 40))
+        # the line-coverage run of lib/cov.py takes the first 4000 cases: a share of every kind goes to the front so that
+        # the eviction paths (delete_surplus_pages, the death-row passes of put) are inside its budget in every tier
+        front, rest, seen = [], [], {}
+        for c in cases[1:]:
+            k = kinds.get(id(c), "?")
+            seen[k] = seen.get(k, 0) + 1
+            (front if seen[k] <= 250 else rest).append(c)
+        cases = cases[:1] + front + rest
         self._kinds = {"\n".join(c): kinds[id(c)] for c in cases if id(c) in kinds}
         self.extra_coverage = {"pressure_cases_cut_at_predicted_ub": getattr(self, "cut", 0)}
         return cases
